@@ -461,7 +461,7 @@ class Report:
 # trace validation in parallel chunks
 
 def validate_trace(tag, module, cfg_text, events, nproc=16, timeout=3600, extra_files=None,
-                   spec_name="TSpec", judged=None):
+                   spec_name="TSpec", judged=None, max_chunk=1500):
     """events: list of dicts each with a unique integer 'id'.  Splits them into chunks, runs one
     TLC (workers 1) per chunk on trace spec `module`, returns (verdicts, results, problems):
     verdicts id -> (verdict, detail).  Every judged event must get exactly one verdict and every
@@ -470,12 +470,15 @@ def validate_trace(tag, module, cfg_text, events, nproc=16, timeout=3600, extra_
     if not events:
         return {}, [], []
     nproc = max(1, min(nproc, len(events)))
+    # more chunks than workers when the trace is long: each TLC holds its whole chunk in memory
+    nev = sum(len(g) for g in events) if isinstance(events[0], list) else len(events)
+    nchunks = max(nproc, min(len(events), -(-nev // max_chunk)))
     if isinstance(events[0], list):
         # groups of events (behaviours) that must stay together and in order
-        chunks = [[e for g in events[k::nproc] for e in g] for k in range(nproc)]
+        chunks = [[e for g in events[k::nchunks] for e in g] for k in range(nchunks)]
         events = [e for g in events for e in g]
     else:
-        chunks = [events[k::nproc] for k in range(nproc)]
+        chunks = [events[k::nchunks] for k in range(nchunks)]
     cfg = "SPECIFICATION %s\nPOSTCONDITION Done\nCHECK_DEADLOCK FALSE\n%s" % (spec_name, cfg_text)
 
     def one(k):
@@ -485,7 +488,7 @@ def validate_trace(tag, module, cfg_text, events, nproc=16, timeout=3600, extra_
 
     verdicts, problems, results = {}, [], []
     with cf.ThreadPoolExecutor(max_workers=nproc) as ex:
-        for k, res in enumerate(ex.map(one, range(nproc))):
+        for k, res in enumerate(ex.map(one, range(nchunks))):
             results.append(res)
             if not res.ok:
                 problems.append("TLC chunk %d of %s failed (rc=%s): %s" % (k, tag, res.rc, res.errors()[:1500]))
